@@ -16,9 +16,10 @@ import tempfile
 
 from harness import core
 
-LEAN_MODULES = ['Pycdlib.Props.C16']
+LEAN_MODULES = ['Pycdlib.Props.C16', 'Pycdlib.Props.C16Cache']
 THEOREMS = ['Pycdlib.stream_refines', 'Pycdlib.step_refines', 'Pycdlib.call_refines', 'Pycdlib.copy_exact',
-            'Pycdlib.refused_unchanged', 'Pycdlib.spec_read_within']
+            'Pycdlib.refused_unchanged', 'Pycdlib.spec_read_within',
+            'Pycdlib.Cache.cache_transparent', 'Pycdlib.Cache.forget_harmless', 'Pycdlib.Cache.stale_without_clear']
 PARTIAL = {}
 TRUSTED = ['the backing file object as (bytes, one position): real file-descriptor semantics beyond seek/read/tell are not modelled',
            'boot-info-table overlay in _get_file_from_iso_fp and multi-extent chaining are covered by the extraction oracle only']
@@ -256,6 +257,133 @@ def extraction_case(ctx, tmpdir):
     os.unlink(path)
 
 
+def names_case(ctx, tmpdir):
+    """reads interleaved with edits that move names between files (hard links added and removed, a name reused for
+    another file) in every namespace: every read returns the bytes of the file that has the name now, whatever was
+    looked up before on the same object (new or re-opened image)."""
+    import pycdlib
+    rng = ctx.rng
+    rp = {'kind': 'names', 'seed_case': ctx.case_seed}
+    iso = pycdlib.PyCdlib()
+    iso.new(interchange_level=3, joliet=3, udf='2.60', rock_ridge='1.09')
+    keys = ('iso_path', 'joliet_path', 'udf_path')
+    pool = {'iso_path': ['/A.;1', '/B.;1', '/C.;1', '/D.;1'], 'joliet_path': ['/a', '/b', '/c', '/d'], 'udf_path': ['/a', '/b', '/c', '/d']}
+    rrn = {'/A.;1': 'a', '/B.;1': 'b', '/C.;1': 'c', '/D.;1': 'd'}
+    live = {}           # (key, path) -> content id
+    nxt = [70]
+    log, seen = [], []  # requests for the cache model (Model/Cache): edits with the live name map, lookups; observed answers
+
+    def pkey(key, path):
+        return keys.index(key) * 10 + pool[key].index(path)
+
+    def log_edit():
+        log.append('E1:' + ','.join('%d=%d' % (pkey(k, p), c) for (k, p), c in sorted(live.items())))
+
+    def body(cid):
+        return content(cid, 2049 + 53 * cid)
+
+    def add(key, path):
+        cid = nxt[0]
+        nxt[0] += 1
+        kw = {key: path}
+        if key == 'iso_path':
+            kw['rr_name'] = rrn[path]
+        else:
+            # every file needs an ISO9660 name; a private one, never touched again
+            kw['iso_path'] = '/X%d.;1' % cid
+            kw['rr_name'] = 'x%d' % cid
+        iso.add_fp(io.BytesIO(body(cid)), len(body(cid)), **kw)
+        live[(key, path)] = cid
+
+    def read_all(stage):
+        for (key, path), cid in sorted(live.items()):
+            how = rng.randrange(3)
+            try:
+                if how == 0:
+                    out = io.BytesIO()
+                    iso.get_file_from_iso_fp(out, blocksize=rng.choice([7, 2048, 65536]), **{key: path})
+                    got = out.getvalue()
+                else:
+                    with iso.open_file_from_iso(**{key: path}) as f:
+                        got = f.read() if how == 1 else f.read(5) + f.read()
+            except Exception as e:  # noqa
+                ctx.violation('C16.names/read-raises', '%s=%s cannot be read %s: %r' % (key, path, stage, e), rp)
+                continue
+            ctx.count(key=(stage, key, path, cid), nontrivial=True, kind='names:' + key.split('_')[0])
+            log.append('L%d' % pkey(key, path))
+            seen.append(str(cid) if got == body(cid) else '?')
+            if got != body(cid):
+                ctx.violation('C16.names/stale/%s' % key.split('_')[0], '%s=%s reads %d bytes that are not those of the file that has this name %s' % (
+                    key, path, len(got), stage), rp)
+        for key in keys:
+            for path in pool[key]:
+                if (key, path) not in live:
+                    log.append('L%d' % pkey(key, path))
+                    try:
+                        iso.get_file_from_iso_fp(io.BytesIO(), **{key: path})
+                    except Exception:  # noqa
+                        seen.append('-')
+                        continue
+                    seen.append('?')
+                    ctx.violation('C16.names/removed-name-readable/%s' % key.split('_')[0], '%s=%s can be read %s although no file has this name' % (key, path, stage), rp)
+
+    for key in keys:
+        add(key, pool[key][0])
+    log_edit()
+    read_all('after-new')
+    reopened = False
+    for step in range(rng.randint(6, 14)):
+        key = rng.choice(keys)
+        have = [p for (k, p) in live if k == key]
+        free = [p for p in pool[key] if (key, p) not in live]
+        r = rng.random()
+        desc = ''
+        try:
+            if r < 0.35 and have and free:
+                old, newp = rng.choice(have), rng.choice(free)
+                kw = {key.replace('_path', '_old_path'): old, key.replace('_path', '_new_path'): newp}
+                if key == 'iso_path':
+                    kw['rr_name'] = rrn[newp]
+                desc = 'add_hard_link %r' % kw
+                iso.add_hard_link(**kw)
+                live[(key, newp)] = live[(key, old)]
+            elif r < 0.7 and len(have) > 0:
+                old = rng.choice(have)
+                desc = 'rm_hard_link %s=%s' % (key, old)
+                iso.rm_hard_link(**{key: old})
+                del live[(key, old)]
+            elif free:
+                newp = rng.choice(free)
+                desc = 'add_fp %s=%s' % (key, newp)
+                add(key, newp)
+            elif not reopened and rng.random() < 0.5:
+                desc = 'write+reopen'
+                path = os.path.join(tmpdir, 'n.iso')
+                iso.write(path)
+                iso.close()
+                iso = pycdlib.PyCdlib()
+                iso.open(path)
+                reopened = True
+        except Exception as e:  # noqa
+            ctx.violation('C16.names/edit-raises', '%s raised %r' % (desc, e), rp)
+            break
+        log_edit()
+        read_all('after %s (step %d)' % (desc, step))
+    # correspondence with the cache model: with every edit clearing the caches, each read is what the name map says
+    model = ctx.driver.ask(['cacherun ' + ' '.join(log)])[0]
+    ctx.traces_validated += 1
+    if model != ','.join(seen):
+        first = [i for i, (a, b) in enumerate(zip(model.split(','), seen)) if a != b][:1]
+        ctx.disagree('S-cache/run', 'reads through the lookup caches differ from the model with clearing edits (first at read %s): impl=%s model=%s' % (
+            first, ','.join(seen)[:120], model[:120]), rp)
+    try:
+        iso.close()
+    except Exception:  # noqa
+        pass
+    if os.path.exists(os.path.join(tmpdir, 'n.iso')):
+        os.unlink(os.path.join(tmpdir, 'n.iso'))
+
+
 def bootinfo_case(ctx, tmpdir):
     """files carrying an El Torito boot info table: extraction returns exactly the file's bytes (table patched into
     [8, 64) and cut at the end of the file), before and after mastering, for every block size"""
@@ -408,6 +536,14 @@ def run(ctx):
                 bootinfo_case(ctx, tmpdir)
             finally:
                 ctx.rng = saved
+        for i in range(25 if ctx.quick else 600):
+            ctx.case_seed = ctx.rng.randrange(2 ** 62)
+            sub = type(ctx.rng)(ctx.case_seed)
+            saved, ctx.rng = ctx.rng, sub
+            try:
+                names_case(ctx, tmpdir)
+            finally:
+                ctx.rng = saved
         ctx.case_seed = 0
         multiextent_case(ctx, tmpdir)
         copy_corr(ctx)
@@ -426,6 +562,8 @@ def replay(ctx, obj):
             one_case(ctx, tmpdir)
         elif r.get('kind') == 'bootinfo':
             bootinfo_case(ctx, tmpdir)
+        elif r.get('kind') == 'names':
+            names_case(ctx, tmpdir)
         elif r.get('kind') == 'multiextent':
             multiextent_case(ctx, tmpdir)
         else:
